@@ -61,6 +61,12 @@ K_XML_NUL = re.compile(rb'&#(?:0+|[xX]0+);')
 K_EXPORT_EMPTY = re.compile(rb'export\s*\{\s*\}')
 
 
+# K9: SVG path coordinates beyond the float64 range are printed as "Inf" (invalid path data)
+K_SVG_HUGE = re.compile(rb'[eE]\+?\d{3,}|\d{300,}')
+# K10: a processing instruction whose content contains ">" before its "?>" is cut at that ">" by the XML/SVG minifiers
+K_PI_GT = re.compile(rb'<\?(?:(?!\?>)[^>])*(?<!\?)>', re.S)
+
+
 def has_known_construct(b):
     return KNOWN_CONSTRUCT.search(b) is not None
 
@@ -84,6 +90,10 @@ def excluded(lang, opts, b):
         tags.append('K7')
     if lang in ('js', 'html') and K_EXPORT_EMPTY.search(b):
         tags.append('K8')
+    if lang in ('svg', 'html') and K_SVG_HUGE.search(b):
+        tags.append('K9')
+    if lang in ('xml', 'svg') and K_PI_GT.search(b):
+        tags.append('K10')
     return tags
 
 
@@ -170,12 +180,21 @@ WS_INSERT = {
 NUMS = [b'0', b'1', b'00', b'0.0', b'.5', b'1.', b'1e3', b'1E-3', b'-0', b'100000', b'0.00001', b'9.99', b'1e21', b'0x1f', b'1_0']
 
 
+_BCACHE = {}
+
+
 def boundaries(lang, b, limit=4000):
+    k = (lang, id(b), len(b))
+    if len(b) > 50000 and k in _BCACHE:
+        return _BCACHE[k]
     bs = [m.start() for m in BOUNDARY[lang].finditer(b)]
     if len(bs) > limit:
         step = len(bs) // limit + 1
         bs = bs[::step]
-    return bs or [0]
+    bs = bs or [0]
+    if len(b) > 50000:
+        _BCACHE[k] = bs        # the large base documents live as long as the run, so id() is stable
+    return bs
 
 
 def mutate(rnd, lang, b, pool):
@@ -224,7 +243,10 @@ def neutralize(b):
 
 def html_window(rnd, b, maxlen=6000):
     """a slice of a large HTML document that starts at a tag and contains whole script/style elements"""
-    starts = [m.start() for m in re.finditer(rb'<(?:script|style|div|p|table|ul|a|svg|form)\b', b, re.I)]
+    k = ('win', id(b), len(b))
+    if k not in _BCACHE:
+        _BCACHE[k] = [m.start() for m in re.finditer(rb'<(?:script|style|div|p|table|ul|a|svg|form)\b', b, re.I)]
+    starts = _BCACHE[k]
     if not starts:
         return b[:maxlen]
     i = rnd.choice(starts)
@@ -509,6 +531,9 @@ def run(ctx):
     if quick:
         must = vlib.sample(must, 4500, rnd)
         rest = vlib.sample(rest, 1500, rnd)
+    else:
+        must = vlib.sample(must, 80000, rnd)
+        rest = vlib.sample(rest, 40000, rnd)
     chosen = must + rest if not only_pinned else []
     nadj = 0
     for p in chosen:
@@ -582,7 +607,11 @@ def run(ctx):
             detail = dict(record={k: v for k, v in rec.items() if k not in ('in', 'out', 'paths0', 'paths1')},
                           origin=c['origin'], input_b64=base64.b64encode(data).decode() if len(data) <= 4 << 20 else None,
                           input_file=c['file'] if c['file'].startswith(vlib.REPO) else None)
-            ctx.report(cs.ident(i), describe(cs, i, rec, w1[pos]), detail)
+            verdict = ctx.report(cs.ident(i), describe(cs, i, rec, w1[pos]), detail)
+            if verdict == 'violation' and os.environ.get('VERIF_C09_SAVE'):      # debugging aid: keep the witness input
+                os.makedirs(os.environ['VERIF_C09_SAVE'], exist_ok=True)
+                with open(os.path.join(os.environ['VERIF_C09_SAVE'], '%s-%s.%s' % (c['opts'], cs.data[i]['sha'][:10], c['lang'])), 'wb') as f:
+                    f.write(data)
     if len(bad) > 400:
         raise vlib.Infra('%d rejected records; only the first 400 were re-run' % len(bad))
     ctx.coverage['rejections'] = len(bad)
